@@ -174,6 +174,7 @@ Fixpoint safe (k : Z) (sv0 cm : val) (p : prog) (touched : bool) (cv : option va
   | Done r => (forall v, cv = Some v -> sv = v)
               /\ (r = RErr EDupKey -> touched = false)
               /\ (r = RNil -> cv = None /\ sv = None)
+              /\ r <> RPanic
   | PGet k' c => k' = k /\ safe k sv0 cm (c cv) touched cv sv
   | PPeek k' c => k' = k /\ safe k sv0 cm (c cv) touched cv sv
   | PSet k' v c => k' = k /\ forall cv', cv' = Some v \/ cv' = None -> safe k sv0 cm c touched cv' sv
@@ -333,22 +334,23 @@ Lemma safe_exec k sv0 cm : forall p t s fs s' evs r,
   /\ frame k (wsr s) (wsr s') /\ cshrink k s s' /\ c_cap (wc s') = c_cap (wc s)
   /\ Forall (fun e => ev_key e = k) evs /\ Forall (pre_good sv0) evs
   /\ (r = RErr EDupKey -> t = false /\ no_store_ev evs = true)
-  /\ (r = RNil -> cview s' k = None /\ sview s' k = None).
+  /\ (r = RNil -> cview s' k = None /\ sview s' k = None)
+  /\ r <> RPanic.
 Proof.
   intros p. pattern p. apply prog_step_ind. clear p. intros p IH t s fs s' evs r Hs He.
   rewrite exec_unfold in He. destruct (mstep p s fs) as [[[[p1 s1] fs1] e]|] eqn:Em.
   - destruct (exec p1 s1 fs1) as [[s2 evs2] x] eqn:Ex. inversion He; subst; clear He.
     destruct (safe_mstep _ _ _ _ _ _ _ _ _ _ _ Hs Em) as (Hs1 & Hk & Hp & Hf & Hc & Hcap).
-    destruct (IH _ _ _ _ _ _ Em _ _ _ _ _ _ Hs1 Ex) as (A1 & A2 & A3 & A4 & A5 & A6 & A7 & A8).
+    destruct (IH _ _ _ _ _ _ Em _ _ _ _ _ _ Hs1 Ex) as (A1 & A2 & A3 & A4 & A5 & A6 & A7 & A8 & A9).
     split; [exact A1|]. split; [eapply frame_trans; eauto|]. split; [eapply cshrink_trans; eauto|].
     split; [congruence|]. split; [constructor; assumption|]. split; [constructor; assumption|].
-    split; [|exact A8].
+    split; [|split; [exact A8 | exact A9]].
     intros Hr. destruct (A7 Hr) as [Ht Hn]. unfold touch in Ht. unfold no_store_ev in *. cbn [forallb].
     destruct (is_store_ev e); [discriminate|]. split; [exact Ht | exact Hn].
   - destruct (mstep_none_done _ _ _ Em) as [r0 ->]. cbn [result_of] in He. inversion He; subst; clear He.
-    cbn [safe] in Hs. destruct Hs as (_ & H1 & H2 & H3).
+    cbn [safe] in Hs. destruct Hs as (_ & H1 & H2 & H3 & H4).
     split; [exact H1|]. split; [apply frame_refl|]. split; [intros x v _ Hx; exact Hx|]. split; [reflexivity|].
-    split; [constructor|]. split; [constructor|]. split; [intros Hr; split; [auto | reflexivity] | exact H3].
+    split; [constructor|]. split; [constructor|]. split; [intros Hr; split; [auto | reflexivity] | split; [exact H3 | exact H4]].
 Qed.
 
 (* ------------------------------------------------------------------ one worker, one whole operation *)
@@ -359,15 +361,16 @@ Theorem handle_spec o s fs s' evs r : wcoh s -> exec (handler o) s fs = (s', evs
   /\ frame (key_of o) (wsr s) (wsr s') /\ cshrink (key_of o) s s' /\ c_cap (wc s') = c_cap (wc s)
   /\ Forall (fun e => ev_key e = key_of o) evs /\ Forall (pre_good (sview s (key_of o))) evs
   /\ (r = RErr EDupKey -> no_store_ev evs = true)
-  /\ (r = RNil -> cview s' (key_of o) = None /\ sview s' (key_of o) = None).
+  /\ (r = RNil -> cview s' (key_of o) = None /\ sview s' (key_of o) = None)
+  /\ r <> RPanic.
 Proof.
   intros Hc He.
   pose proof (handler_safe o (cview s (key_of o)) (sview s (key_of o)) (Hc (key_of o))) as Hs.
-  destruct (safe_exec _ _ _ _ _ _ _ _ _ _ Hs He) as (A1 & A2 & A3 & A4 & A5 & A6 & A7 & A8).
+  destruct (safe_exec _ _ _ _ _ _ _ _ _ _ Hs He) as (A1 & A2 & A3 & A4 & A5 & A6 & A7 & A8 & A9).
   split.
   - intros x v Hx. destruct (Z.eq_dec x (key_of o)) as [->|Hne]; [apply A1; exact Hx|].
     unfold sview. rewrite (A2 x Hne). apply Hc. apply (A3 x v Hne Hx).
-  - repeat (split; [assumption|]). split; [intros Hr; apply (A7 Hr) | exact A8].
+  - repeat (split; [assumption|]). split; [intros Hr; apply (A7 Hr) | split; [exact A8 | exact A9]].
 Qed.
 
 (* a cached key makes an add a duplicate that touches nothing *)
@@ -527,17 +530,38 @@ Proof.
 Qed.
 
 (* ------------------------------------------------------------------ locHash *)
-Theorem lochash_in_range h n : 0 < n -> - two63 < h < two63 -> 0 <= loc h n < n.
+(* the repaired index: in range for EVERY hash *)
+Theorem lochash_in_range h n : 0 < n -> 0 <= loc h n < n.
 Proof.
-  intros Hn Hh. unfold loc. destruct (h <? 0) eqn:E.
-  - apply Z.ltb_lt in E. unfold wrap64. replace ((- h + two63) mod (2 * two63)) with (- h + two63).
-    + replace (- h + two63 - two63) with (- h) by lia. apply Z.rem_bound_pos; lia.
-    + symmetry. apply Z.mod_small. unfold two63 in *. lia.
-  - apply Z.ltb_ge in E. apply Z.rem_bound_pos; lia.
+  intros Hn. unfold loc. pose proof (Z.rem_bound_abs h n ltac:(lia)) as Hb. split; [apply Z.abs_nonneg | lia].
 Qed.
 
-(* the one hash locHash cannot make non-negative: the index is negative and the caller panics (DESIGN section 8) *)
-Example lochash_minint : loc (- two63) 127 = -1.
-Proof. vm_compute. reflexivity. Qed.
-Example lochash_minint_pow2 : loc (- two63) 2 = 0.
-Proof. vm_compute. reflexivity. Qed.
+(* the repair changes the index of no hash but the smallest int *)
+Theorem lochash_agrees_prefix h n : 0 < n -> - two63 < h < two63 -> loc h n = loc_prefix h n.
+Proof.
+  intros Hn Hh. unfold loc, loc_prefix. destruct (h <? 0) eqn:E.
+  - apply Z.ltb_lt in E. unfold wrap64. replace ((- h + two63) mod (2 * two63)) with (- h + two63).
+    + replace (- h + two63 - two63) with (- h) by lia. rewrite Z.rem_opp_l by lia.
+      pose proof (Z.rem_nonpos h n ltac:(lia) ltac:(lia)). lia.
+    + symmetry. apply Z.mod_small. unfold two63 in *. lia.
+  - apply Z.ltb_ge in E. pose proof (Z.rem_nonneg h n ltac:(lia) E). lia.
+Qed.
+
+(* before the repair: the smallest int with three workers gives index -2, and the caller panics *)
+Example lochash_prefix_refuted : loc_prefix (- two63) 3 = -2 /\ loc_prefix (- two63) 127 = -1 /\ loc (- two63) 3 = 2.
+Proof. vm_compute. repeat split. Qed.
+
+(* with the repaired index every key has a worker: no call of a group with at least one worker panics *)
+Theorem do_op_no_panic c g o fs g' evs r : gok g -> 0 < g_n c -> do_op c g o fs = (g', evs, r) -> r <> RPanic.
+Proof.
+  intros [Hg _] Hn Hd. unfold do_op in Hd. set (w := loc_of c (key_of o)) in *.
+  assert (Hw : (w <? 0) = false) by (apply Z.ltb_ge; unfold w, loc_of; apply lochash_in_range; exact Hn).
+  rewrite Hw in Hd.
+  assert (Hgen : forall s' evs0 r0, exec (handler o) (g w) fs = (s', evs0, r0) -> r0 <> RPanic).
+  { intros s' evs0 r0 He. destruct (handle_spec _ _ _ _ _ _ (Hg w) He) as (_ & _ & _ & _ & _ & _ & _ & _ & H). exact H. }
+  destruct o as [k|k d|k d|k|k d|k d|k d];
+    try (destruct (exec (handler _) (g w) fs) as [[s' evs0] r0] eqn:He; inversion Hd; subst; eapply Hgen; reflexivity).
+  destruct (c_get (wc (g w)) k) as [c' r1]. destruct r1 as [v|].
+  - inversion Hd; subst. discriminate.
+  - destruct (exec (handler (OGet k)) (g w) fs) as [[s' evs0] r0] eqn:He. inversion Hd; subst. eapply Hgen. reflexivity.
+Qed.
